@@ -69,6 +69,7 @@ const (
 	FErrMsg      = "errmsg:"            // prefix: resolver returns (nil, errors.New(rest))
 	FElemPanic   = "elem_panic"         // list of leaves: element 1 makes the leaf's Serialize panic
 	FElemThunk   = "elem_thunk"         // list: every element is a thunk yielding the normal element
+	FCancelCtx   = "cancel_ctx"         // resolver cancels the request context (then returns normally)
 	FBlockCancel = "block_until_cancel" // resolver waits for the request context to be done, then fails with its error
 	FHostileVars = "hostile_vars"       // resolver overwrites the entries of Info.VariableValues
 	FObserveCtx  = "observe"            // resolver returns ctx.Err() if the context is done
@@ -101,6 +102,7 @@ type ReqCtx struct {
 	ArgLog  map[string]string
 	Check   func(rc *ReqCtx, p *graphql.ResolveParams, path string) // optional extra check (C20)
 	Ext     *ExtRun                                                 // when set, resolver events are mirrored into the extension log
+	Cancel  func()                                                  // cancels the request context (used by the cancel_ctx fault)
 }
 
 type reqKey struct{}
@@ -257,7 +259,7 @@ func NewWorld(id string, exts ...graphql.Extension) *World {
 	w.Kind = graphql.NewEnum(graphql.EnumConfig{
 		Name: "Kind",
 		Values: graphql.EnumValueConfigMap{
-			"ALPHA": &graphql.EnumValueConfig{Value: kindValues[0]},
+			"ALPHA": &graphql.EnumValueConfig{Value: kindValues[0], DeprecationReason: "use BETA"},
 			"BETA":  &graphql.EnumValueConfig{Value: kindValues[1]},
 			"GAMMA": &graphql.EnumValueConfig{Value: kindValues[2]},
 		},
@@ -331,7 +333,7 @@ func NewWorld(id string, exts ...graphql.Extension) *World {
 			Fields: graphql.FieldsThunk(func() graphql.Fields {
 				fs := fields()
 				for fname, f := range fs {
-					if f.Resolve == nil {
+					if f.Resolve == nil && fname != "plainRoot" {
 						f.Resolve = w.resolver(name, fname)
 					}
 				}
@@ -381,6 +383,8 @@ func NewWorld(id string, exts ...graphql.Extension) *World {
 		// covariant narrowing of the interface field: makes NewSchema consult (and
 		// therefore create) the schema's possible-type table at construction
 		fs["peer"] = &graphql.Field{Type: w.Obj["C"], Args: graphql.FieldConfigArgument{"as": &graphql.ArgumentConfig{Type: graphql.String}}}
+		// the same interface field with another argument default than A and B
+		fs["name"] = &graphql.Field{Type: graphql.String, Args: graphql.FieldConfigArgument{"up": &graphql.ArgumentConfig{Type: graphql.Boolean, DefaultValue: true}}}
 		fs["cOnly"] = &graphql.Field{Type: graphql.Float}
 		fs["matrix"] = &graphql.Field{Type: graphql.NewList(graphql.NewList(graphql.NewNonNull(graphql.Int)))}
 		fs["deep"] = &graphql.Field{Type: deep}
@@ -488,6 +492,8 @@ func NewWorld(id string, exts ...graphql.Extension) *World {
 			"plainMap": &graphql.Field{Type: plain, Resolve: func(p graphql.ResolveParams) (interface{}, error) {
 				return map[string]interface{}{"name": "map-name", "n": 3, "tag": func() interface{} { return "map-tag-fn" }}, nil
 			}},
+			// no resolver at all: read from the request's root value by the default resolver
+			"plainRoot":   &graphql.Field{Type: plain},
 			"plainTagged": &graphql.Field{Type: plain, Resolve: func(p graphql.ResolveParams) (interface{}, error) { return plainRecTagged(), nil }},
 			"x1":          &graphql.Field{Type: graphql.String},
 			"x2":          &graphql.Field{Type: graphql.String},
@@ -728,6 +734,11 @@ func (w *World) resolverInner(coord string) graphql.FieldResolveFn {
 				}
 			}
 			return v, nil
+		case FCancelCtx:
+			if rc.Cancel != nil {
+				rc.Cancel()
+			}
+			return val(), nil
 		case FBlockCancel:
 			<-p.Context.Done()
 			return nil, p.Context.Err()
